@@ -121,6 +121,7 @@ KEY_CRLF = "remove-comments-crlf-anchor:--_keep\\r\\n"
 KEY_RAW = "remove-spaces-ellipsis-after-line-comment:(--c\\n...number)"
 KEY_END_SEMI = "append-end-before-semicolon:local_a=1;"
 KEY_MISCLASSIFIED = "append-text-misclassified-line-comment:[a["
+KEY_DOTNUM = "trailing-dot-number-fused:5.--[[c]]end"
 KEY_MINUS = "remove-spaces-minus-before-comment:a_-_--_c"
 
 
@@ -373,6 +374,18 @@ def ellipsis_after_line_comment(src):
     return False
 
 
+def dot_number_before_word(src):
+    """a number written with a trailing dot (`5.`) whose next code token is a word"""
+    try:
+        toks, _ = L.lex(src.encode("utf-8"))
+    except L.LexError:
+        return False
+    for a, b in zip(toks, toks[1:]):
+        if a.kind == "number" and a.text.endswith(b".") and b.kind == "name":
+            return True
+    return False
+
+
 def joined(comments):
     return b"".join(comments)
 
@@ -465,6 +478,7 @@ def run(ctx):
         "-- keep\r\nlocal a = 1 -- keep\r\nreturn a --[[ keep ]]\r\n",
         "local y = a - --[[c]] b\nreturn - --[[d]] y\n",
         "type F = (--c\n...number) -> ()\nlocal x = 1\n",
+        "if x then return 5.--[[c]]end\n",
     ] + list(G.TYPED_SOURCES)
     sources = [s for s in G.FIXED_SOURCES] + special_sources + gen_sources
     cr_sources = ["-- a\rprint(2)\nprint(1)\n", "print(1) -- a\rprint(2)\r"]
@@ -558,6 +572,8 @@ def run(ctx):
                 key = known_class(text)
                 if key is None and kind == "append+spaces" and minus_before_comment(src):
                     key = KEY_MINUS
+                if key is None and kind == "append+spaces" and dot_number_before_word(src):
+                    key = KEY_DOTNUM
                 if key is None and loc == "end" and "moved code b';'" in problem:
                     key = KEY_END_SEMI
             elif kind == "append" and loc == "end" and text:
@@ -584,6 +600,8 @@ def run(ctx):
                        if keep(c.text + (b"\r" if data[c.end:c.end + 2] == b"\r\n" and not c.text.endswith(b"]") else b""))]
                 if joined(alt) == joined([c.text for c in o.lout[1]]):
                     key = KEY_CRLF
+            if problem is not None and problem.startswith("code") and dot_number_before_word(src):
+                key = KEY_DOTNUM
             if problem is not None and has_cr_in_line_comment(src):
                 key = KEY_SOURCE_CR
             elif problem is not None and kind != "remove_comments" and minus_before_comment(src):
@@ -601,6 +619,8 @@ def run(ctx):
                 key = KEY_MINUS
             elif problem is not None and ellipsis_after_line_comment(src):
                 key = KEY_RAW
+            elif problem is not None and dot_number_before_word(src):
+                key = KEY_DOTNUM
         elif kind.startswith("generator:"):
             gname = kind.split(":")[1]
             base = base_out.get((gname, src))
